@@ -150,8 +150,11 @@ static Json::Value genScenario(Rng& rng) {
       a["args"]["recursive"] = "true";
     if (i == 2)
       a["args"]["resource"] = "memory";
-    if (i == 1)
+    if (i == 1) {
       a["args"]["threshold"] = "0";
+      if (rng.chance(0.5))
+        a["args"]["biased_swap_kill"] = "true";
+    }
     if (i == 0)
       a["args"]["size_threshold"] = "0";
     if (rng.chance(0.2))
@@ -219,6 +222,21 @@ static Json::Value genScenario(Rng& rng) {
     rs["actions"].append(act);
     rs["post_action_delay"] = "0";
     cfg["rulesets"].append(rs);
+  }
+  // half of the scenarios have a prekill hook that takes one tick for every
+  // other victim: the kill then completes on the next tick through the
+  // resume path, on statistics that are read afresh
+  if (rng.chance(0.5)) {
+    Json::Value h = plugin("sim_hook");
+    h["args"]["id"] = "hb0";
+    h["args"]["cgroup"] = "/";
+    cfg["prekill_hooks"].append(h);
+    Json::Value durs(Json::arrayValue);
+    durs.append((Json::Int64)5000000000LL);
+    durs.append(0);
+    plan["hooks"]["hb0"] = durs;
+    for (auto& rs : cfg["rulesets"])
+      rs["prekill_hook_timeout"] = "30";
   }
   plan["config"] = cfg;
   plan["scripts"] = scripts;
